@@ -200,6 +200,12 @@ def gen_history(index, salt="C04-updates"):
         if x >= 0.45:                   # 0.45-0.7: update then read-only operations; >= 0.7: read-only operations alone
             steps.extend(ro_block())
         steps.append(read_step(r.random() < 0.75))
+    # checkpoints at which every component is ALSO resolved through instance() / replicate() of the live
+    # object (own random stream: the histories themselves stay what they were)
+    rr = vlib.rng(salt, "history-routes", index)
+    for st in steps:
+        if st["op"] == "read" and rr.random() < 0.3:
+            st["routes"] = rr.choice([["instance"], ["replicate"], ["instance", "replicate"]])
     return {"index": index, "doc": doc, "user": user, "active": active, "steps": steps}
 
 
